@@ -371,61 +371,106 @@ def c03(ctx: Ctx) -> None:
                   witness=render(G, w2), construct=construct_key('BUFFER.daemon', 'no retry'))
     # S4: every GET flows into a loader coroutine that is awaited
     tree = r.root.unit.tree
+
+    def _pos(x: ast.AST):
+        return (type(x).__name__, getattr(x, 'lineno', None), getattr(x, 'col_offset', None), getattr(x, 'end_col_offset', None))
+
+    # loader applications in the daemon graph: direct calls (also the ones inlined because they are awaited on the
+    # spot) and map(loader, producers); each with the expression that supplies the producer(s)
+    loader_apps: List[Tuple[Node, ast.AST, bool, str]] = []     # (node, producer expression, awaited inline, form)
+    for n in G.nodes:
+        if n.kind not in ('call', 'inline_enter') or not isinstance(n.ast, ast.Call):
+            continue
+        c = n.ast
+        pre = r.loader_ref(c.func)
+        if pre is not None and c.args:
+            awaited = (n.kind == 'inline_enter' and bool(n.meta.get('awaited'))) or isinstance(parent(c), ast.Await)
+            loader_apps.append((n, c.args[-1], awaited, 'call'))
+        elif G.res.path(c.func) == 'builtins.map' and len(c.args) == 2 and r.loader_ref(resolve(G, n, c.args[0], depth=2)) is not None:
+            loader_apps.append((n, c.args[1], False, 'map'))
+        elif G.res.path(c.func) == 'builtins.map' and len(c.args) == 2 and r.loader_ref(c.args[0]) is not None:
+            loader_apps.append((n, c.args[1], False, 'map'))
+
+    def flows_into_loader(get_ast: ast.AST, awaited_only: bool = False, form: Optional[str] = None) -> bool:
+        want = _pos(get_ast)
+        for n, prod, awaited, fm in loader_apps:
+            if awaited_only and not awaited:
+                continue
+            if form is not None and fm != form:
+                continue
+            rv = resolve(G, n, prod)
+            if any(_pos(x) == want for x in ast.walk(rv)) or any(x is get_ast for x in ast.walk(prod)):
+                return True
+        return False
+
+    # the list in which created-but-not-yet-awaited loader coroutines are kept
+    def _is_loader_value(n: Node, e: ast.AST) -> bool:
+        rv = resolve(G, n, e)
+        if isinstance(rv, ast.Call) and (r.loader_ref(rv.func) is not None or (
+                G.res.path(rv.func) == 'builtins.map' and rv.args and r.loader_ref(rv.args[0]) is not None)):
+            return True
+        if isinstance(e, ast.Call) and (r.loader_ref(e.func) is not None or (
+                G.res.path(e.func) == 'builtins.map' and e.args and r.loader_ref(e.args[0]) is not None)):
+            return True
+        return isinstance(rv, ast.List) and bool(rv.elts) and all(_is_load_call(r, x) for x in rv.elts)
     lists = [n for n in G.nodes if n.kind == 'store_name' and isinstance(n.meta.get('value'), ast.List) and n.meta['value'].elts
              and all(_is_load_call(r, x) for x in n.meta['value'].elts)]
-    L = lists[0].meta['name'] if lists else None
+    from ..dataflow import unalias as _ua
+    Lcands: Dict[str, int] = {}
+    for n in lists:
+        Lcands[n.meta['name']] = Lcands.get(n.meta['name'], 0) + 1
+    for n in G.nodes:
+        if n.kind == 'call' and isinstance(n.ast.func, ast.Attribute) and n.ast.func.attr in ('append', 'extend') and n.ast.args:
+            rc = _ua(G, n, n.ast.func.value)
+            if isinstance(rc, ast.Name) and _is_loader_value(n, n.ast.args[0]):
+                Lcands[rc.id] = Lcands.get(rc.id, 0) + 1
+    L = max(sorted(Lcands), key=lambda k: Lcands[k]) if Lcands else None
 
-    def flows_to_loader(var: str, awaited: bool) -> bool:
-        for x in ast.walk(tree):
-            if _is_load_call(r, x) and x.args and isinstance(x.args[0], ast.Name) and x.args[0].id == var:
-                if not awaited or isinstance(parent(x), ast.Await):
-                    return True
-        return False
     for bg in r.blocking_get:
         if r.is_armed_get(bg):
             continue
-        par = parent(bg.ast)
-        ok = _is_load_call(r, par)
-        if not ok and isinstance(par, (ast.Assign, ast.AnnAssign)):
-            tgt = par.targets[0] if isinstance(par, ast.Assign) else par.target
-            ok = isinstance(tgt, ast.Name) and flows_to_loader(tgt.id, False)
-        ctx.check('C03-S4', f'blocking get -> {norm(par)[:60]}', G.loc(bg), ok, 'dequeued producer wrapped by the loader',
+        ok = flows_into_loader(bg.ast)
+        ctx.check('C03-S4', f'blocking get {norm(bg.ast)[:60]} -> loader', G.loc(bg), ok, 'dequeued producer wrapped by the loader',
                   'a dequeued producer is not handed to the loader', construct=construct_key('BUFFER.daemon', 'get not loaded'))
     for tg in r.timed_get:
-        par = parent(tg.ast)
-        ok = _is_load_call(r, par) and isinstance(parent(par), ast.Await)
-        if not ok and isinstance(par, (ast.Assign, ast.AnnAssign)):
-            tgt = par.targets[0] if isinstance(par, ast.Assign) else par.target
-            ok = isinstance(tgt, ast.Name) and flows_to_loader(tgt.id, True)
-        ctx.check('C03-S4', f'timed get -> {norm(parent(par) if par is not None and parent(par) is not None else tg.ast)[:70]}', G.loc(tg), ok,
+        ok = flows_into_loader(tg.ast, awaited_only=True)
+        ctx.check('C03-S4', f'timed get {norm(tg.ast)[:60]} -> awaited loader', G.loc(tg), ok,
                   'awaited inline through the loader', 'the producer delivered by the timed read is not loaded',
                   construct=construct_key('BUFFER.daemon', 'timed get not loaded'))
     for ng in r.nowait_gets:
-        par = parent(ng.ast)
-        ok = _is_load_call(r, par)
-        if not ok and isinstance(par, (ast.Assign, ast.AnnAssign)):
-            tgt = par.targets[0] if isinstance(par, ast.Assign) else par.target
-            ok = isinstance(tgt, ast.Name) and flows_to_loader(tgt.id, False)
-        ctx.check('C03-S4', f'non-blocking get -> {norm(par)[:60]}', G.loc(ng), ok, 'drained producer wrapped by the loader',
+        ok = flows_into_loader(ng.ast)
+        ctx.check('C03-S4', f'non-blocking get {norm(ng.ast)[:60]} -> loader', G.loc(ng), ok, 'drained producer wrapped by the loader',
                   'a drained producer is not handed to the loader', construct=construct_key('BUFFER.daemon', 'nowait get not loaded'))
     for d in r.drain_calls:
-        par = parent(d.ast)
-        ok = isinstance(par, ast.Call) and G.res.path(par.func) == 'builtins.map' and r.loader_ref(par.args[0]) is not None \
-            and isinstance(parent(par), ast.Call) and isinstance(parent(par).func, ast.Attribute) \
-            and parent(par).func.attr == 'extend' and isinstance(parent(par).func.value, ast.Name) and parent(par).func.value.id == L
-        ctx.check('C03-S4', f'drained producers -> {norm(parent(par))[:70] if par is not None and parent(par) is not None else None}', G.loc(d), ok,
+        # all drained producers: map(loader, <drain>) whose result is added to the loader list
+        ok = False
+        for n, prod, awaited, fm in loader_apps:
+            if fm != 'map':
+                continue
+            rv = resolve(G, n, prod)
+            if not (any(_pos(x) == _pos(d.ast) for x in ast.walk(rv)) or any(x is d.ast for x in ast.walk(prod))):
+                continue
+            par = parent(n.ast)
+            if isinstance(par, ast.Call) and isinstance(par.func, ast.Attribute) and par.func.attr == 'extend':
+                pn = next((x for x in G.nodes if x.kind == 'call' and x.ast is par), None)
+                rc = _ua(G, pn, par.func.value) if pn is not None else par.func.value
+                ok = ok or (isinstance(rc, ast.Name) and rc.id == L)
+        ctx.check('C03-S4', f'drained producers {norm(d.ast)} -> map(loader, ...) -> loader list', G.loc(d), ok,
                   'every drained producer becomes a loader coroutine in the gather list',
                   'drained producers are not all loaded', construct=construct_key('BUFFER.daemon', 'drain not loaded'))
     if L is not None:
-        growth = lists + [n for n in G.nodes if n.kind == 'call' and isinstance(n.ast.func, ast.Attribute) and n.ast.func.attr in ('extend', 'append')
-                          and isinstance(n.ast.func.value, ast.Name) and n.ast.func.value.id == L]
-        consume = [n for n in r.gathers if any(isinstance(a, ast.Starred) and isinstance(a.value, ast.Name) and a.value.id == L
-                                               for a in n.ast.value.args)]
+        def _isL(n: Node, e: ast.AST) -> bool:
+            rc = _ua(G, n, e)
+            return isinstance(rc, ast.Name) and rc.id == L
+        growth = [n for n in lists if n.meta['name'] == L] + [
+            n for n in G.nodes if n.kind == 'call' and isinstance(n.ast.func, ast.Attribute) and n.ast.func.attr in ('extend', 'append')
+            and _isL(n, n.ast.func.value)]
+        consume = [n for n in r.gathers if any(isinstance(a, ast.Starred) and _isL(n, a.value) for a in n.ast.value.args)]
         drops = [n for n in G.nodes if n.kind == 'call' and isinstance(n.ast.func, ast.Attribute) and n.ast.func.attr == 'clear'
-                 and isinstance(n.ast.func.value, ast.Name) and n.ast.func.value.id == L]
+                 and _isL(n, n.ast.func.value)]
 
         def empty_false(e: Edge) -> bool:
-            return e.src.kind == 'branch' and isinstance(e.src.meta['test'], ast.Name) and e.src.meta['test'].id == L and e.label == 'false'
+            return e.src.kind == 'branch' and isinstance(e.src.meta['test'], ast.Name) and _isL(e.src, e.src.meta['test']) and e.label == 'false'
         for gn in growth:
             starts = [e for e in G.succ[gn.id] if e.label != 'exc']
             w = must_pass(G, [], drops + [G.exit] + r.timed_get, consume, start_edges=starts,
